@@ -160,6 +160,8 @@ where
             "PRM: Roadmap constructed with {} milestones.",
             self.roadmap.len()
         );
+        // Keep the generator so that later calls continue the seeded sequence.
+        self.rng = Some(rng);
 
         Ok(())
     }
